@@ -166,7 +166,10 @@ fn real_main() {
                 }
                 *LAST_PANIC.lock().unwrap() = format!("{}", info);
             }));
-            let cs = match id {
+            // a generator relies on the implementation behaving as on the unchanged tree where the property obliges it to
+            // (e.g. an in-limit slice can be shredded); if such a call panics or fails, the generator's own `expect`
+            // aborts it - that is reported as a finding with the panic location, never as a silent infrastructure error
+            let generated = std::panic::catch_unwind(std::panic::AssertUnwindSafe(|| match id {
                 "C12" => c12::gen_c12(seed, tier),
                 "C13" => c13::gen_c13(seed, tier),
                 "C14" => c14::gen_c14(seed, tier),
@@ -192,8 +195,20 @@ fn real_main() {
                     eprintln!("unknown property {}", id);
                     std::process::exit(2);
                 }
+            }));
+            let mut cs = match generated {
+                Ok(cs) => cs,
+                Err(_) => {
+                    let msg = LAST_PANIC.lock().unwrap().clone();
+                    eprintln!("agverif: generator for {} aborted: {}", id, msg);
+                    let short: String = msg.replace('\n', " ").chars().filter(|c| c.is_ascii_graphic() || *c == ' ').take(160).collect();
+                    let mut stats = Stats::default();
+                    stats.rule = "the generator aborted: a call of the implementation that the generator needs to succeed (it does on the unchanged tree) panicked or failed".into();
+                    stats.harness_findings.push((0, format!("harness:generator-aborted:{}", short.replace(' ', "-"))));
+                    CaseSet { header: String::new(), runner: "(fun (_ : list nat) => @nil (N * N * N)%type)".into(), defs: Vec::new(), cases: Vec::new(),
+                              descr: vec![format!("case 0: the {} generator aborted: {}", id, short)], sigs: Vec::new(), stats }
+                }
             };
-            let mut cs = cs;
             if let Some(pos) = args.iter().position(|a| a == "--runner") {
                 cs.runner = args[pos + 1].clone();
             }
@@ -202,6 +217,7 @@ fn real_main() {
             }
             if let Some(pos) = args.iter().position(|a| a == "--only") {
                 let only: usize = args[pos + 1].parse().expect("case id");
+                if only >= cs.cases.len() { write_caseset(&cs, outdir, shards); return; }
                 cs.cases = vec![cs.cases[only].clone()];
                 cs.descr = vec![cs.descr.get(only).cloned().unwrap_or_default()];
             }
